@@ -11,6 +11,10 @@ TRUSTED = [
     "the files themselves, which document descriptor the sealed fraction reads from; both values of frac.Config.SkipSortDocs "
     "and KeepMetaFile), run in lock-step with Model.step and tied to /repo by comparing, after EVERY label of every CSchedF "
     "schedule, the model's state with /proc/self/fd + stat of the real process and the sealed fraction's docsFile identity",
+    "hand-written pool/slice model props/C07/coq/ModelPool.v (heap of backing arrays, slice headers, the sync.Pool of "
+    "docBlocksWriters with an arbitrary choice per seal, slices.Clone vs. aliasing), tied to /repo by comparing, after EVERY label of "
+    "every CSchedP schedule, the in-memory Sealed.BlocksOffsets of every installed sealed fraction with the model; the offsets a "
+    "seal writes (zstd block lengths) enter as per-case data (as first seen at seal.swapped); Go's slice growth policy is abstracted",
     "Go harness harness/cmd/hC07 (schedule executor parking the real goroutines at verifhook points, generators, "
     "canonicalisation of results, the /proc/self/fd reader); /repo/verifhook + the add-only verifhook.At lines (no-ops "
     "without the build tag); add-only exports frac/export_verif_c07*.go, fracmanager/export_verif_c07*.go",
